@@ -2084,3 +2084,64 @@ example :
     (nvconv.all fun m => legacyRole m.role) = true := by decide
 
 end OllamaVerif.C19
+
+namespace OllamaVerif.C19
+open OllamaVerif OllamaVerif.Prompt
+
+/-! ### the handlers end to end on the prompt bytes (round 7) -/
+
+/-- **POST /v1/chat/completions and POST /api/chat, end to end on the prompt bytes** (in-place template, current
+    variant; partial: guard `cleanPieces` on the model's MESSAGEs, the model SYSTEM and the request's texts — finding
+    F5 otherwise): whatever the request's context length and the scheduler's slots, when the handler builds a
+    prompt the runner's regexp matches every index `k < #images sent` exactly once and nothing else, every match
+    resolves, and the images sent are the images (image parts) of the retained messages in order.  `req` is the
+    request's message list — for the OpenAI entry `fromOpenAI oreq`. -/
+theorem handler_prompt_tags_inplace_partial {tv : TVar} {dflt : Int} {modelParam reqOpt : Option Int} {np : Nat}
+    {mm : List Msg} {s : Bytes} {req : List Msg} {tools : ToolsV}
+    {q n : Nat} {sys ret : List Msg} {imgs : List ImgOut} {p : Bytes}
+    (h : chatHandler true false tv tInPlace dflt modelParam reqOpt np mm s req tools = .ok q n sys ret imgs p)
+    (hmm : ∀ m ∈ mm, cleanPieces m.content = true ∧ ∀ k, countTag k m.content = 0)
+    (hreq : ∀ m ∈ req, cleanPieces m.content = true ∧ ∀ k, countTag k m.content = 0)
+    (hs : cleanPieces (splitImg s) = true) :
+    (∀ k, (scanTags p 0).count k = if k < imgs.length then 1 else 0) ∧
+    (∃ l, resolveTags imgs (scanTags p 0) = some l ∧ l.length = (scanTags p 0).length) ∧
+    imgs = specImagesFrom ⟨true, false, 0, requestNumCtx dflt modelParam reqOpt⟩ 0
+      (((handlerMsgs mm s req).drop n).flatMap (·.images)) := by
+  unfold chatHandler at h
+  simp only [Bool.false_eq_true, if_false] at h
+  have hall := handlerMsgs_all (fun m => cleanPieces m.content = true ∧ ∀ k, countTag k m.content = 0) mm s req
+    hmm hreq ⟨hs, fun k => splitImg_noTag k s⟩
+  obtain ⟨_, h2, h3⟩ := prompt_tags_inplace_partial h rfl (fun m hm => (hall m hm).1) (fun m hm => (hall m hm).2)
+  exact ⟨h2, h3, images_are_spec (templ_ok_exact h).1⟩
+
+/-- the OpenAI conversion keeps texts as they are: a converted message's content is a part's text, a string
+    content, or empty (image part) -/
+theorem fromOpenAI_content (req : List OMsg) (P : List Piece → Prop) (hnil : P [])
+    (hstr : ∀ o ∈ req, ∀ c, o.content = .str c → P c)
+    (hparts : ∀ o ∈ req, ∀ ps, o.content = .parts ps → ∀ c, OPart.text c ∈ ps → P c) :
+    ∀ m ∈ fromOpenAI req, P m.content := by
+  intro m hm
+  simp only [fromOpenAI, List.mem_flatMap] at hm
+  obtain ⟨o, ho, hmo⟩ := hm
+  obtain ⟨r, c⟩ := o
+  cases c with
+  | str c =>
+    simp [fromOpenAIMsg] at hmo
+    subst hmo
+    exact hstr _ ho c rfl
+  | parts ps =>
+    simp only [fromOpenAIMsg, List.mem_map] at hmo
+    obtain ⟨pt, hpt, hp⟩ := hmo
+    subst hp
+    cases pt with
+    | text c => exact hparts _ ho ps rfl c hpt
+    | image im => exact hnil
+
+
+/-- non-vacuity: an OpenAI request with a text part and an image part on the in-place template: the handler's prompt
+    mentions the single image exactly once -/
+example :
+    scanOf (chatHandler true false ⟨2, true⟩ tInPlace 2048 none none 1 [] []
+      (fromOpenAI [⟨.user, .parts [.text (txt bHi), .image ⟨7, true⟩]⟩])) = [0] := by decide
+
+end OllamaVerif.C19
